@@ -55,7 +55,7 @@ def gen_ops(rng, cfg, nops, kmax=5, pmax=3):
     pool = {}
     for _ in range(nops):
         teams, regime = gen.gen_teams(rng, cfg["beta"], kmax=kmax, pmax=pmax,
-                                      regime=rng.choice(["typical", "wide", "mismatch", "equal_size", "huge_sigma"]))
+                                      regime=rng.choice(["typical", "wide", "mismatch", "equal_size", "huge_sigma", "identical"]))
         r = rng.random()
         if r < 0.6:
             k = len(teams)
